@@ -83,3 +83,29 @@ func First(blob []byte) (uint64, error) {
 	}
 	return m.File[0].Block[0].Size, nil
 }
+
+type info struct {
+	Arch string
+}
+
+func parseInfo(raw []byte) (*info, error) {
+	if len(raw) == 0 {
+		return nil, errEmpty
+	}
+	return &info{Arch: string(raw)}, nil
+}
+
+var errEmpty = xml.UnmarshalError("empty")
+
+// Arch is the positive control of R11p: the result of a call that failed is used before the error
+// is looked at.
+func Arch(raw []byte, out chan<- *info, errs chan<- error) {
+	go func() {
+		i, err := parseInfo(raw)
+		if i.Arch == "" {
+			i.Arch = "all"
+		}
+		out <- i
+		errs <- err
+	}()
+}
